@@ -291,6 +291,7 @@ type env struct {
 	newPartSinceQ bool
 	garbage       bool
 	sqlLog        *os.File
+	tCopy, tXform, tRun time.Duration
 	minDate, defStart, soAdd int64
 }
 
@@ -300,7 +301,7 @@ func newEnv(c *vh.Ctx) *env {
 	logger := zerolog.New(io.Discard).Level(zerolog.Disabled)
 	be, err := storage.NewLocalBackend(root, logger)
 	must(err)
-	db, err := database.New(&database.Config{MemoryLimit: "512MB", ThreadCount: 2, MaxConnections: 2, LocalStorageRoot: root}, logger)
+	db, err := database.New(&database.Config{MemoryLimit: "512MB", ThreadCount: 1, MaxConnections: 2, LocalStorageRoot: root}, logger)
 	must(err)
 	e := &env{c: c, r: vh.NewRand(c.Seed), root: root, db: db, sqldb: db.DB()}
 	e.qhOn = api.NewQueryHandler(db, be, logger, 0, 0)
@@ -406,8 +407,10 @@ func (e *env) addFile(tbl string, day bool, idx int64, rows []row) {
 	q := fmt.Sprintf("COPY (SELECT CAST(c0 AS BIGINT) AS rid, CAST(make_timestamp(c1) AS TIMESTAMPTZ) AS \"time\", "+
 		"CAST(make_timestamp(c2) AS TIMESTAMPTZ) AS event_time, CAST(make_timestamp(c3) AS TIMESTAMPTZ) AS src_timestamp, "+
 		"CAST(c4 AS BIGINT) AS v FROM (VALUES %s) t(c0,c1,c2,c3,c4)) TO '%s' (FORMAT PARQUET)", strings.Join(vals, ", "), full)
+	tc := time.Now()
 	_, err := e.sqldb.Exec(q)
 	must(err)
+	e.tCopy += time.Since(tc)
 	if !e.hasPart(tbl, day, idx) {
 		e.newPartSinceQ = true
 	}
@@ -706,11 +709,15 @@ func (e *env) doQuery(q *query, cached bool) {
 	}
 	e.qhOff.InvalidateCaches()
 	rng, tr := e.rangeStr(sqlText)
+	tx := time.Now()
 	xOn, _ := api.C18Transform(e.qhOn, ctx, sqlText, hdr)
 	xOff, _ := api.C18Transform(e.qhOff, ctx, sqlText, hdr)
+	e.tXform += time.Since(tx)
 	plans := e.plans(xOn)
+	tx = time.Now()
 	rowsOn, errOn := e.run(xOn)
 	rowsOff, errOff := e.run(xOff)
+	e.tRun += time.Since(tx)
 	if offPlans := e.plans(xOff); offPlans["cpu"] != "ALL" {
 		panic("harness: the pruning-off handler did not produce the unpruned glob: " + xOff)
 	}
@@ -942,7 +949,7 @@ func (e *env) randomLayout() scen {
 		{"recent", ts("2024-03-15 10:00:00"), ts("2024-03-15 15:00:00")},
 		{"recent", ts("2024-03-15 10:00:00"), ts("2024-03-16 09:20:11")},
 		{"y2020", ts("2020-01-01 00:00:00"), ts("2020-01-02 12:00:00")},
-		{"y2020", ts("2020-01-01 00:00:00"), ts("2024-03-15 15:00:00")},
+		{"y2020", ts("2020-01-01 00:00:00"), ts("2020-01-03 06:30:00")},
 		{"epoch", ts("1970-01-01 00:00:00"), ts("2024-03-15 15:00:00")},
 		{"monthend", ts("2024-03-01 10:00:00"), ts("2024-03-31 12:00:00")},
 		{"monthend", ts("2023-03-01 00:00:00"), ts("2023-03-30 23:00:00")},
@@ -1197,7 +1204,7 @@ func (e *env) functionLevel(n int) {
 	for _, now := range []string{"2024-03-31 12:00:00", "2024-01-31 00:00:00", "2023-03-30 23:59:59", "2024-02-29 06:00:00", "2024-05-31 18:00:00", "2024-03-15 15:00:00", "2024-12-31 23:00:00"} {
 		e.setNow(ts(now))
 		for _, u := range []string{"second", "minute", "hour", "day", "week", "month"} {
-			for _, k := range []int{1, 2, 3, 13, 25} {
+			for _, k := range []int{1, 2, 13} {
 				e.opRel(false, k, u)
 				e.opRel(true, k, u)
 			}
@@ -1278,9 +1285,9 @@ func main() {
 	c := vh.Start()
 	e := newEnv(c)
 	defer e.close()
-	nLayouts, perLayout, nFunc := 40, 10, 150
+	nLayouts, perLayout, nFunc := 24, 8, 80
 	if c.Thorough() {
-		nLayouts, perLayout, nFunc = 450, 14, 1500
+		nLayouts, perLayout, nFunc = 160, 12, 500
 	}
 	if c.N > 0 {
 		nLayouts = c.N
@@ -1297,8 +1304,16 @@ func main() {
 			panic(fmt.Sprintf("fixture self-check failed: %d %s", us, typ))
 		}
 	}
+	t0 := time.Now()
 	e.functionLevel(nFunc)
+	fmt.Fprintf(os.Stderr, "function-level ops: %v\n", time.Since(t0))
+	t0 = time.Now()
 	e.edgeGrid()
+	fmt.Fprintf(os.Stderr, "edge grid: %v\n", time.Since(t0))
+	t0 = time.Now()
+	defer func() {
+		fmt.Fprintf(os.Stderr, "random layouts: %v (total: copy %v, transform %v, duckdb queries %v)\n", time.Since(t0), e.tCopy, e.tXform, e.tRun)
+	}()
 	for i := 0; i < nLayouts; i++ {
 		e.randomLayout()
 		for j := 0; j < perLayout; j++ {
